@@ -60,6 +60,7 @@ func c02Step(x *engine.Exec) []engine.Failure {
 		}
 		if x.Res.Err != nil {
 			x.Cnt.Inc("slash.callback_error")
+			defer ref.resyncUnb(next)
 		}
 	case world.KBlock:
 		if x.Res.Err != nil {
